@@ -122,6 +122,10 @@ class H5Group:
         automatically determined by the data
         :param compression: whether to compress the data (default: False)
         """
+        if dtype is not None and DataType.is_numeric_dtype(dtype):
+            # convert before creating or resizing anything, so that values
+            # that do not fit the type are refused without side effects
+            data = np.asarray(data, dtype=dtype)
         shape = np.shape(data)
         if self.has_data(name):
             dset = self.get_dataset(name)
